@@ -31,7 +31,8 @@ def _strategy():
                 ci = draw(st.integers(0, len(base["stacks"][si]["cas"]) - 1))
                 kind = draw(st.sampled_from(["p2p", "p2p", "p2p", "p2p", "bc1", "bc2", "unowned"]))
                 m = {"t": b, "src": [si, ci], "kind": kind, "dp": draw(st.integers(0, 1)), "prio": draw(st.integers(0, 7)),
-                     "ctx": "app", "pl": draw(N.payload_spec(N.lengths_22(), 60)),
+                     "ctx": draw(st.sampled_from(["app", "app", "app", "timer", "on_rx"])),
+                     "pl": draw(N.payload_spec(N.lengths_22(), 60)),
                      "dt_ms": draw(st.sampled_from([0, 0, 0, 2, 10, 30, 80]))}
                 if i >= 3 and m["pl"]["n"] > 2000:
                     m["pl"]["n"] = 61 + m["pl"]["n"] % 1000      # keep big bursts cheap
@@ -56,6 +57,7 @@ def _strategy():
                 for m in msgs:
                     if m["t"] == b:
                         m["dt_ms"] = 0
+                        m["ctx"] = "app"
         base["msgs"] = msgs
         return base
     return build()
@@ -69,7 +71,9 @@ class C02:
                  "reference delivery model and a reference capacity model")
     RULE = ("Hypothesis builds 2-3 real J1939-22 stacks (1-2 CAs each, optional unfiltered ECU listener, max_cmdt_packets 1..255, "
             "latency lists over (0, 5 ms]) and 1-2 bursts of 1..14 messages of 61..20000 bytes (all residues mod 60; RTS/CTS, "
-            "PDU1->255, PDU2, unowned destination) submitted in the same instant from one, two or all stacks; per stack the "
+            "PDU1->255, PDU2, unowned destination) submitted in the same instant from one, two or all stacks (bursts that cannot exceed a capacity are also staggered by 2..80 ms '
+            "and submitted from the application context, from a timer callback of the stack or from inside a receive callback; "
+            "send calls take 0..0.5 ms, receive callbacks 0..20 ms); per stack the "
             "first 8 destination-specific and first 4 broadcast calls of a burst must return True and be delivered per the "
             "reference delivery model, every further one must return False without emitting a frame; non-trivial = >= 2 "
             "concurrent sessions of one stack or traffic in both directions; distinct = distinct parameter sets")
@@ -121,21 +125,38 @@ class C02:
             import vlib.world as W
             waves = sorted({(m["t"], m.get("dt_ms", 0)) for m in p["msgs"]})
             for (b, dtm) in waves:
+                def submit(mi, m):
+                    if mi in results:
+                        return
+                    stk = stacks[m["src"][0]]
+                    ca = stk.cas["ca%d" % m["src"][1]]
+                    data = W.make_payload(m["pl"])
+                    ps = N.dest_addr(p, m) if m["kind"] != "bc2" else m["ps"]
+                    k0 = len(w.bus.log)
+                    results[mi] = (w.sim.now, "EXC:pending", bytes(data))
+                    try:
+                        r = ca.send_pgn(m["dp"], m["pf"], ps, m["prio"], list(data))
+                    except Exception as e:  # noqa
+                        r = "EXC:%s:%s" % (type(e).__name__, str(e)[:120])
+                    results[mi] = (results[mi][0], r, bytes(data))
+                    emitted[mi] = len(w.bus.log) - k0
+
                 def burst(b=b, dtm=dtm):
                     for mi, m in enumerate(p["msgs"]):
                         if m["t"] != b or m.get("dt_ms", 0) != dtm:
                             continue
+                        ctx = m.get("ctx", "app")
                         stk = stacks[m["src"][0]]
-                        ca = stk.cas["ca%d" % m["src"][1]]
-                        data = W.make_payload(m["pl"])
-                        ps = N.dest_addr(p, m) if m["kind"] != "bc2" else m["ps"]
-                        k0 = len(w.bus.log)
-                        try:
-                            r = ca.send_pgn(m["dp"], m["pf"], ps, m["prio"], list(data))
-                        except Exception as e:  # noqa
-                            r = "EXC:%s:%s" % (type(e).__name__, str(e)[:120])
-                        results[mi] = (w.sim.now, r, bytes(data))
-                        emitted[mi] = len(w.bus.log) - k0
+                        if ctx == "timer":
+                            # from a timer callback of the stack (its own job thread)
+                            stk.ecu.add_timer(0.0, lambda cookie, mi=mi, m=m: (submit(mi, m), False)[1])
+                        elif ctx == "on_rx":
+                            # from inside the application's receive callback (next delivery to this stack), or from the
+                            # application context 0.3 s later when nothing arrives
+                            stk.rx_hooks.append(lambda lname, mi=mi, m=m: submit(mi, m))
+                            w.sim.schedule(w.sim.now + 0.3, lambda mi=mi, m=m: submit(mi, m))
+                        else:
+                            submit(mi, m)
                 w.at(t_of[b] + dtm / 1000.0, burst)
             w.run_until(w.t0 + horizon)
             for kind, detail, tt in w.liveness_problems():
@@ -196,6 +217,9 @@ class C02:
             labels.append("bidirectional")
         if any(m.get("dt_ms", 0) for m in p["msgs"]):
             labels.append("staggered")
+        for c in ("timer", "on_rx"):
+            if any(m.get("ctx") == c for m in p["msgs"]):
+                labels.append("ctx=" + c)
         if any(m["pl"]["n"] % 60 == 0 for m in p["msgs"]):
             labels.append("len%60==0")
         if any(m["pl"]["n"] > 5000 for m in p["msgs"]):
